@@ -232,6 +232,12 @@ void run_C16(Ctx &cx) {
       if (len >= 2) { s[len - 1] = '='; s[len - 2] = '='; check_candidate(cx, s, "length-padded"); }
       if (len >= 1) { std::string t = s; t[len - 1] = '='; check_candidate(cx, t, "length-padded1"); }
     }
+    // a valid key followed by more text, every total length 25..600 (lengths congruent to 24 modulo 256 included)
+    for (size_t L = 25; L <= 600; L++) {
+      std::string s = K;
+      while (s.size() < L) s += (char)(L % 3 == 0 ? ALPHA[r.below(64)] : (L % 3 == 1 ? '=' : '!'));
+      check_candidate(cx, s, "valid-prefix-plus-tail");
+    }
     // all values of the 22nd symbol (canonical and non-canonical endings)
     for (int v = 0; v < 64; v++) { std::string s = K; s[21] = ALPHA[v]; check_candidate(cx, s, "last-symbol"); }
   }
@@ -273,6 +279,8 @@ void run_C16(Ctx &cx) {
     if (how == 5) s.pop_back();
     if (how == 6) s += "A";
     if (how == 7) { s[22] = '='; s[23] = 'A'; }
+    if (how == 8) s += std::string(256, 'A');   // 280 characters: a valid key followed by 256 more
+    if (how == 9 && kc % 20 == 9) s += std::string(512, '=');
     vh::J j;
     j.str("family", "cli-k-path").str("k_hex", vh::hex((const uint8_t *)s.data(), s.size()));
     cx.begin(j.done());
